@@ -337,4 +337,38 @@ def execute(case, stats):
     )
 
 
-SUBS = [Sub("extract", execute, strategy=case_strategy, examples={"quick": 2400, "thorough": 48000})]
+# ------------------------------------------------------------------------------------------ deterministic boundary sweep
+def sweep_enumerate(tier, shard, nshards):
+    """Every alignment of the 7-byte header around a read boundary, for every default key, raw and XorEncoded, with
+    and without a second block behind the boundary - covered on every run, not left to chance."""
+    from ..runner import shard_iter
+
+    def gen():
+        bufs = [None, 16] if tier == "quick" else [None, 16, 5, 100]
+        for buf in bufs:
+            for m in (1, 2):
+                for d in range(-8, 3):
+                    for key in (0x69, 0x2E, 0x00):
+                        for container in ("raw", "xorpe"):
+                            for second in (False, True):
+                                yield {"buf": buf, "m": m, "d": d, "key": key, "container": container, "second": second}
+
+    return shard_iter(gen(), shard, nshards)
+
+
+def sweep_execute(case, stats):
+    blocks = [{"proto": 8, "settings": [(2, SHORT, b"\x11\x5c"), (37, INT, b"\x00\x00\x00\x01")], "key": case["key"], "pad": "zero", "gap": 0}]
+    if case["second"]:
+        blocks.append({"proto": 0, "settings": [(2, SHORT, b"\x1f\x90"), (37, INT, b"\x00\x00\x00\x02")], "key": case["key"], "pad": "zero", "gap": 40})
+    full = {
+        "blocks": blocks, "filler": "random", "seed": 1000 + case["m"] * 17 + case["d"], "target": (case["m"], case["d"]), "container": case["container"],
+        "arch": "x86", "stub": b"\xfc" * 30, "nonce": b"\x13\x57\x9b\xdf", "marker_mode": "both", "prepend": 0, "stub_decoy": None, "tail": 10,
+        "bufsize": case["buf"], "keys": {"mode": "default", "list": []}, "entry": "bytes",
+    }  # fmt: skip
+    execute(full, stats)
+
+
+SUBS = [
+    Sub("extract", execute, strategy=case_strategy, examples={"quick": 2400, "thorough": 48000}),
+    Sub("boundary_sweep", sweep_execute, enumerate=sweep_enumerate, exhaustive=True),
+]
